@@ -21,6 +21,7 @@ CONSTANTS
 CONSTRAINT Bound
 VIEW View
 INVARIANT MonOk
+INVARIANT BusOk
 INVARIANT JobAlive
 INVARIANT NoSpin
 INVARIANT GivesUp
